@@ -78,8 +78,10 @@ def check_child_table_access(ctx, fx, RULE="R16.1"):
         wf = fx.fn(w)
         if wf is not None and w not in touch and any((t.get("resolved") or t.get("callee")) in WRITERS for _, t in ctx.body(fx, wf).normal_calls()):
             delegating.add(w)
-    ctx.floor(RULE, "functions touching Context.children", len(touch) + len(delegating), 3)
     writer_helpers = graph.private_helpers(fx, set(WRITERS))  # private accessors only the writers use
+    # (writers that reach the table through such an accessor — `self.children_slot::<M>()` — count for it)
+    via_helper = {w for w in WRITERS if fx.fn(w) is not None and w not in touch and w not in delegating and any((t.get("resolved") or t.get("callee")) in writer_helpers and (t.get("resolved") or t.get("callee")) in {fx.fn(x).get("root", x) for x in touch} for _, t in ctx.body(fx, fx.fn(w)).normal_calls())}
+    ctx.floor(RULE, "functions touching Context.children", len(touch) + len(delegating) + len(via_helper), 3)
     for fn_, locs in sorted(touch.items()):
         root = fx.fn(fn_).get("root", fn_)
         ctx.require(root in WRITERS or root in writer_helpers, RULE, "access:" + fn_, "the child table is accessed outside add_child / register_child / send_to_children", fn=fn_, site=locs[0], detail={"sites": len(locs)})
